@@ -4711,9 +4711,13 @@ impl<Front: SocketHandler> ConnectionH2<Front> {
                 incr!(names::h2::FRAMES_TX_GOAWAY);
                 // Stay in the current state so the connection can continue processing
                 // existing streams. The final GOAWAY will transition to GoAway state.
-                // Keep READABLE so in-flight request bodies can still be received
-                // during the drain window. Only remove READABLE in the final GOAWAY
-                // (via `goaway()`).
+                // In-flight request bodies can still be received during the drain
+                // window, but not before this frame has left the zero buffer: it is
+                // also the buffer control-frame payloads are read into, and a
+                // WINDOW_UPDATE or PING read on top of the unflushed GOAWAY corrupts
+                // both. The flush paths re-insert READABLE once the buffer is free;
+                // only the final GOAWAY (via `goaway()`) removes it for good.
+                self.readiness.interest.remove(Ready::READABLE);
                 self.expect_zero_write();
                 self.readiness.arm_writable();
                 MuxResult::Continue
